@@ -9,7 +9,7 @@ BOUNDS = {
              "(tuple, pair, linear) at depth 0/1 and 1-2 levels, flatten->unflatten, mergeRanks (absolute, relative; colliding points summed), swapRanks and its inverse, "
              "split->flatten(absolute) round trip, updateCoords (c+o, o-c) and updatePayloads (p+w) at every depth; value-symbolic family: swizzleRanks over all "
              "permutations of 2x2 and 2x2x2 boxes built with explicit zeros / all-zero rows; canonical (zero cells absent) 2x2x2 boxes and a non-cubic 1x2x3 box for swizzle with the permuted shape checked; two fibers at the transformed depth one of which is empty; flatten of a flatten result (operand intact, inverse still works), swap of a flatten result; inverse transforms inside shapes whose extents all differ (2x3x4, 2x2x3x5)",
-    "thorough": "adds [2,2], [[1,1]], [[1],[1]], [[2]] skeletons, 3x2x2 swizzles, estimated (non-authoritative) shapes for every transform",
+    "thorough": "adds [2,2], [[1,1]], [[1],[1]], [[2]] skeletons, 3x2x2 swizzles (half of the cells fixed), estimated (non-authoritative) shapes for every transform",
 }
 OUTSIDE = "boxes larger than the bound for swizzle (coordinates are hashed by the library: concrete there); 'linear' with symbolic shape"
 ASSUMPTIONS = ["A1 integers only", "A2 injective coordinate callbacks", "S1, S2"]
@@ -303,7 +303,7 @@ def obligations(tier):
             obs.append(_mk(None, "swizzleRanks", {"perm": list(perm)}, box=[2, 2, 2], S=2, canon=True))
     if not q:
         for perm in itertools.permutations(range(3)):
-            obs.append(_mk(None, "swizzleRanks", {"perm": list(perm)}, box=[3, 2, 2], S=3))
+            obs.append(_mk(None, "swizzleRanks", {"perm": list(perm)}, box=[3, 2, 2], S=3, fixed=[0, 0, 5, 0, 0, 0], canon=False))      # (all 12 cells symbolic = 4096 paths: too heavy)
             obs.append(_mk(None, "swizzleRanks", {"perm": list(perm)}, box=[2, 2, 3], S=3, fixed=[0, 0, 4, 0, 5, 0], canon=True))
     # estimated shapes
     for tree in ([[1, 1], [1, 0]] if q else t2):
